@@ -6,29 +6,39 @@ import Nstd.Variant.DeepFuel
 /-
   Property C07 — Variant keeps the last assigned value with independent lazy copies.
 
-  Model: `Nstd.Variant.step` (Model.lean): variables are `data` pointers to the shared null
-  descriptor, an inline scalar descriptor or a reference-counted heap block; copies share
-  blocks; `clear`, `operator=`, the typed `operator=`, the mutable accessors and `swap`
-  follow the code (clone iff the type differs or `ref > 1`, otherwise in-place write).
+  HEADLINE: `deep_refines` / `deep_driver_refines` (section "deep model" below) — the heap model the
+  driver runs (`Deep.lean`: element Variants are cells, nested lazy sharing, destructor cascade) refines
+  the store of values for all operations.  The theorems of the first sections are about the
+  *variable-level* model `Nstd.Variant.step` (Model.lean): variables are `data` pointers to the shared
+  null descriptor, an inline scalar descriptor or a reference-counted heap block; copies share blocks;
+  `clear`, `operator=`, the typed `operator=`, the mutable accessors and `swap` follow the code (clone
+  iff the type differs or `ref > 1`, otherwise in-place write).  Below the root that model applies the
+  specification's own `updPath` / `Leaf.apply` / `coerce` to the payload, so the content of `refines`
+  is the share-or-clone decision at the variables; nested sharing is `deep_refines`.
   Specification: `Nstd.Variant.specStep` (Spec.lean): a store of values.
 
   All theorems hold for every semantics `ds : DblSem` of the double operations (doubles are
-  opaque), for every history `ops : List Op` (any length, any nesting depth of the values
-  and of the access paths).  `stepD`/`specStepD` ignore refused lines (`bad-op`): both
-  sides refuse the same lines (`refuses_same`).
+  opaque: every statement about a double alternative is definitional — it says which `DblSem`
+  function is called, not what IEEE arithmetic yields; that part is covered by the correspondence
+  run against Python floats only), for every history `ops : List Op` (any length, any nesting depth
+  of the values and of the access paths).
 
-  Scope (see Model.lean): sharing is modelled between variables; the Variants inside a
-  container payload are kept by value.  Precondition built into `step` (`mutOk`): a Variant
-  reached through a mutable accessor of `v` is not given `v` itself as source (finding
-  "self-append"), and the typed container assignment receives a temporary.
+  Refused lines: `stepD`/`specStepD`/`drun`/`ddrive` skip a line that `step`/`specStep` refuse
+  (`bad-op` on both sides of the correspondence; both sides refuse the same lines, `refuses_same`).
+  The precondition `mutOk` — a Variant reached through a mutable accessor of `v` is not given `v`
+  itself as source — makes the self-append scenario (`v.toList().append(v)`) such a refused line:
+  "for all histories" includes it only as a no-op on both sides, whereas the real code builds a
+  cycle there (known finding KF-C07-self-append, probed on every run).
 -/
 namespace Nstd.Variant
 
 /-! ## refinement: the variables always hold the values of the plain store -/
 
-/-- For all histories: every variable of the copy-on-write model reads exactly the value the
-    store of values holds (all assignment / copy / swap / typed assignment / mutable access
-    histories, nested paths included). -/
+/-- For all histories: every variable of the variable-level copy-on-write model reads exactly the value
+    the store of values holds (all assignment / copy / swap / typed assignment / mutable access
+    histories).  Content: the share / clone / in-place decisions at the variables; below the root the
+    model uses the specification's own nested update (see `deep_refines` for nested sharing).  Lines the
+    model refuses — in particular self-append, `mutOk` — are skipped on both sides (KF-C07-self-append). -/
 theorem refines (ds : DblSem) (ops : List Op) (v : Nat) (hv : v < nvars) :
     (run ds init ops).read v = specRun ds Store.init ops v :=
   (run_refines ds ops good_init rel_init).2 v hv
@@ -128,8 +138,17 @@ theorem touch_value (ds : DblSem) (pre : List Op) (v k : Nat) (hv : v < nvars) (
 the range of its C type (what the constructors and the typed `operator=` guarantee).  Each
 `to*_table` theorem covers one conversion function for *every* non-double alternative and
 every integer: the result is the value reduced modulo 2^32 / 2^64 into the target range (the
-C cast), and `to*_exact`: a value that fits is returned unchanged.  Doubles are opaque
-(`DblSem`), so the double column is `toInt (dbl d) = ds.toI32 d` by definition. -/
+C cast), and `to*_exact`: a value that fits is returned unchanged.
+
+Two caveats.  (1) Doubles are opaque (`DblSem`): the double rows/columns — `toInt (dbl d) = ds.toI32 d`,
+`toBool_table`/`toDouble_table`/`toString_table` for `dbl`, `(double)n = ds.ofInt n` — are
+definitional restatements of which `DblSem` function the code calls; what those functions compute
+is checked by the correspondence run (Ieee.lean vs the real code vs Python floats) only.
+(2) The string rows are relative to this area's definitions of `strtol`/`strtoul` (Val.lean): for a
+string `Val.num` *is* `strtol s` / `strtoul s`, so the table row only states the final C cast.  The
+independent facts about decimal strings are `string_roundtrip_*`, `string_bool_consistent`,
+`eq_int_string` and `strtol_range`/`strtoul_range` below; that glibc parses like these definitions is
+part of the trusted translation (compared on every run, incl. overflow, sign and white-space cases). -/
 
 /-- the integer a value stands for in a signed (`atoi`/`atoll`) or unsigned (`strtoul`/`strtoull`)
     conversion: bool as 0/1, integers as themselves, strings through the libc parser, the rest 0 -/
@@ -393,9 +412,10 @@ operation (DeepInv.lean); `release` terminates within a fuel above the number of
 (DeepRelease.lean); a nested walk leaves its uniquely owned parent block untouched
 (DeepPriv.lean) and refines the nested value update (DeepWalk.lean); temporaries (DeepTemp.lean). -/
 
-/-- For every history the deep model never faults, its abstract
+/-- HEADLINE.  For every history the deep model never faults, its abstract
     state is the specification store, and what it reads back from the heap (`readCell`, any fuel
-    above the size of the value) is the specification's value. -/
+    above the size of the value) is the specification's value.  (`drun` skips the lines the
+    specification refuses — among them self-append, see the file header — on both sides.) -/
 theorem deep_refines (ds : DblSem) (ops : List Op) (hsup : ∀ op ∈ ops, Deep.OpSup op) :
     ∃ s, Deep.drun ds Deep.dinit Store.init ops = some (s, specRun ds Store.init ops) ∧
       Deep.DGood s (specRun ds Store.init ops) ∧
@@ -411,8 +431,9 @@ theorem deep_refines (ds : DblSem) (ops : List Op) (hsup : ∀ op ∈ ops, Deep.
 theorem deep_read_fuel {s : Deep.DState} {σ : Store} (hg : Deep.DGood s σ) (v : Nat) (hv : v < nvars) :
     s.read v = σ v := Deep.read_exact hg v hv
 
-/-- The loop of the compiled driver itself (`Deep.ddrive`: a line is executed iff the specification
-    accepts it on the values *read back from the heap* with fuel `next + 1`) never prints FAULT and ends,
+/-- HEADLINE.  The loop of the compiled driver itself (`Deep.ddrive`: a line is executed iff the
+    specification accepts it on the values *read back from the heap* with fuel `next + 1`; refused lines,
+    self-append among them, are skipped) never prints FAULT and ends,
     for every history, in a state whose variables read exactly as the specification store. -/
 theorem deep_driver_refines (ds : DblSem) (ops : List Op) (hsup : ∀ op ∈ ops, Deep.OpSup op) :
     ∃ s, Deep.ddrive ds Deep.dinit ops = some s ∧ ∀ v, v < nvars → s.read v = specRun ds Store.init ops v := by
